@@ -353,6 +353,14 @@ pub(crate) fn preflight_private_batch_proofs(
     ensure_private_batch_compatible(proofs)
 }
 
+/// Verification hook (add-only, guarded): exposes the unchanged public preflight predicate.
+#[cfg(quantus_network_qp_zk_circuits_verif)]
+pub fn verif_ensure_private_batch_compatible(
+    proofs: &[ProofWithPublicInputs<F, C, D>],
+) -> Result<()> {
+    ensure_private_batch_compatible(proofs)
+}
+
 /// Check that a set of private-batch proofs is mutually compatible under the
 /// public-batch circuit's cross-proof constraints, so an incompatible batch is
 /// rejected at commit time instead of failing after a full proving run:
